@@ -51,7 +51,7 @@ PROPS = {
     "C01": {
         "lean_modules": ["WP.Props.C01"],
         "lean_support": ["WP.Props.Solvency.Basic", "WP.Props.Solvency.Step", "WP.Props.Solvency.Loop", "WP.Props.Solvency.Swap",
-                         "WP.Props.Solvency.Ops", "WP.Props.Solvency.Reach", "WP.Props.Solvency.Final"],
+                         "WP.Props.Solvency.Ops", "WP.Props.Solvency.Reach", "WP.Props.Solvency.Final", "WP.Props.Solvency.Ext"],
         "families": [("hist", 10000, 500000)],
         "history": True,
         "rule": "hist: random histories (40-100 ops after each `H init`) on a real Whirlpool (fixed / dynamic / mixed tick arrays; Anchor or Pinocchio liquidity path per op; fee accumulators started anywhere in u128 incl. just below wrap-around); the whole state digest is compared with the Lean model after every op and the implementation-side oracles (hist_oracle.rs) run after every op; non-trivial = a successful op; distinct by hash of (op line, clock)",
